@@ -89,7 +89,7 @@ Events(s) ==
     [] Fam = "deposit" -> DepositEvents(s)
     [] Fam = "auth"    -> AuthEvents(s)
 
-S0 == InitState(Accts, Denoms, Funded, Params0, 3, Devs)
+S0 == InitState(Accts, Denoms, {N1}, Funded, Params0, 3, Devs)
 
 ASSUME PrintT("META " \o ToJson([accts |-> Accts, denoms |-> Denoms, funded |-> Funded, params |-> Params0, devs |-> Devs]))
 
